@@ -65,6 +65,11 @@ claimed = {
    text="Each ordering × split is loaded by the real LoadSchema and compared with the canonical ordering of the same definitions: same loadability, same canonical dump (types, fields / interfaces / members / values / directive uses as sets per type, relations as sets, roots, directives). For rejected systems the error must name a source that holds a definition or extension involved in a broken rule. Extensions before their base, interfaces after implementers, unions before members and directive uses before definitions arise by construction of the permutations.",
    note="Trusted: ref/refschema for involvement; the canonical dump walker. Units are whole definitions; the base moves as three blocks.",
    ref="DESIGN.md §4 C17"),
+ "C13": dict(
+   technique=T + "every type-system sentence ≤5/6 tokens and the profile documents with a comment at every gap (document round trip), every loadable type system of the schema kit with ≤1/2 menu items, and a rich type system with each of 25 describable elements × 16 description values — each × all 64 formatter configurations; metamorphic oracle load∘format = id on the canonical dump / projection and format∘load∘format = format",
+   text="Document side: parse, FormatSchemaDocument under every configuration (4 indents × comments × compacted × builtin × without-description), re-parse, compare canonical projections (descriptions unless switched off; schema blocks merged, as the formatter prints them merged) and check the fixpoint. Loaded side: LoadSchema, FormatSchema under every configuration, load the text back and compare the canonical order-insensitive dumps (types, fields, arguments, defaults, directive uses, relations, roots, descriptions), then the fixpoint. Four recorded defects are excused only under their narrow keys (commas-only difference, schema-description-only difference, built-in-type-only difference, the __schema reload error under WithBuiltin).",
+   note="Trusted: parser and loader as constructors (C06, C07), the dump/projection walkers. With WithBuiltin the text is loaded without the prelude as a built-in source.",
+   ref="DESIGN.md §4 C13"),
 }
 checks = []
 for i in ids:
